@@ -14,6 +14,7 @@
 -/
 import Emu.Proofs.Lin
 import Emu.Proofs.Gcs
+import Emu.Proofs.ComposeSplit
 
 namespace Emu.Props.C07
 open Emu Emu.Gcs Emu.Proofs.Gcs
@@ -112,5 +113,45 @@ example :
     let s0 : Store := ({} : Store).add [98] [110] [1] {}
     (uploads [98] [110] { genMatch := 1 } s0 [([2], {}), ([3], {}), ([4], {})]).2
       = [.ok, .precondition, .precondition] := by decide
+
+/-! ### A compose and its sources
+
+`finishCompose` holds the destination's lock only; it reads its sources first and validates and
+writes the destination afterwards.  `composeSplit s0 s1` is that request with the sources read in
+`s0` and the destination handled in `s1` (`Proofs/ComposeSplit`). -/
+
+open Emu.Proofs.ComposeSplit in
+/-- The one-lock account of a compose (one step, taken where it writes) is right whenever no source
+    changed while the compose was under way … -/
+theorem compose_is_one_step_unless_a_source_is_written (s0 s1 : Store) (b dst : Bytes) (rc : RawConds)
+    (srcs : List ComposeSrc) (m : Option Meta) (h : ∀ src ∈ srcs, s0.obj? b src.name = s1.obj? b src.name) :
+    composeSplit s0 s1 b dst rc srcs m = step s1 (.compose b dst rc srcs m) :=
+  as_if_atomic s0 s1 b dst rc srcs m h
+
+open Emu.Proofs.ComposeSplit in
+/-- … and uploads, copies and patches that target another object do not change a source. -/
+theorem writers_of_other_objects_leave_a_source (s : Store) (b' n' : Bytes) :
+    (∀ b n content m d rc, (b' ≠ b ∨ n' ≠ n) → (step s (.upload b n content m d rc)).1.obj? b' n' = s.obj? b' n') ∧
+    (∀ b1 n1 b2 n2, (b' ≠ b2 ∨ n' ≠ n2) → (step s (.copy b1 n1 b2 n2)).1.obj? b' n' = s.obj? b' n') ∧
+    (∀ b n rc body, (b' ≠ b ∨ n' ≠ n) → (step s (.patch b n rc body)).1.obj? b' n' = s.obj? b' n') ∧
+    (∀ s0 b dst rc srcs m, (b' ≠ b ∨ n' ≠ dst) → (composeSplit s0 s b dst rc srcs m).1.obj? b' n' = s.obj? b' n') :=
+  ⟨fun b n content m d rc h => upload_frame s b n content m d rc b' n' h,
+   fun b1 n1 b2 n2 h => copy_frame s b1 n1 b2 n2 b' n' h,
+   fun b n rc body h => patch_keeps_what_compose_reads s b n rc body b' n' h,
+   fun s0 b dst rc srcs m h => compose_frame s0 s b dst rc srcs m b' n' h⟩
+
+open Emu.Proofs.ComposeSplit in
+/-- Outside the property (the two requests target different objects), stated so that it is not
+    mistaken for covered: with a writer of a source in between, a compose is not one step —
+    compose{a ← a + c} around copy{a → c} ends in a state neither serial order gives. -/
+theorem compose_is_not_one_step_over_its_sources :
+    let mid := (step start copy_a_c).1
+    let fin := (composeSplit start mid [98] [97] {} [⟨[97], 0⟩, ⟨[99], 0⟩] none).1
+    (contentOf fin [97], contentOf fin [99]) = (some [65, 67], some [65]) ∧
+    (let t := (step (step start compose_a).1 copy_a_c).1
+     (contentOf t [97], contentOf t [99])) = (some [65, 67], some [65, 67]) ∧
+    (let t := (step (step start copy_a_c).1 compose_a).1
+     (contentOf t [97], contentOf t [99])) = (some [65, 65], some [65]) :=
+  Emu.Proofs.ComposeSplit.skew
 
 end Emu.Props.C07
